@@ -422,6 +422,11 @@ class ManifestFile:
             elif state == ManifestState.SIGNED_PREAMBLE:
                 if verify_openpgp:
                     openpgp_data += line
+                # GnuPG takes a line of NUL bytes and whitespace for
+                # the empty line that ends the headers, we would not
+                if '\0' in line:
+                    raise ManifestSyntaxError(
+                        'NUL byte inside OpenPGP signed data')
                 # skip header lines up to the empty line (they are
                 # skipped below, after checking for misplaced armor)
                 if not line.strip():
